@@ -25,10 +25,10 @@ import (
 	"github.com/nginx/kubernetes-ingress/internal/configs"
 	"github.com/nginx/kubernetes-ingress/internal/configs/version1"
 	"github.com/nginx/kubernetes-ingress/internal/configs/version2"
-	"github.com/nginx/kubernetes-ingress/internal/nginx"
 	"github.com/nginx/kubernetes-ingress/internal/k8s"
 	"github.com/nginx/kubernetes-ingress/internal/k8s/appprotect"
 	"github.com/nginx/kubernetes-ingress/internal/k8s/secrets"
+	"github.com/nginx/kubernetes-ingress/internal/nginx"
 	"github.com/nginx/kubernetes-ingress/internal/verifh/vh"
 	conf_v1 "github.com/nginx/kubernetes-ingress/pkg/apis/configuration/v1"
 	"github.com/nginx/kubernetes-ingress/pkg/apis/dos/v1beta1"
@@ -169,17 +169,17 @@ type Ing struct {
 }
 
 type Case struct {
-	Fam     string   `json:"fam"` // res | inv
-	ID      int      `json:"id"`
-	Class   string   `json:"class"` // ing | merge | vs | ts | inv
-	Env     Env      `json:"env"`
-	Cluster Cluster  `json:"cluster"`
-	Ing     *Ing     `json:"ing,omitempty"`
-	Minions []Ing    `json:"minions,omitempty"`
-	Rival   *Ing     `json:"rival,omitempty"` // an older Ingress owning one of the hosts
-	VS      *VS      `json:"vs,omitempty"`
-	TS      *TS      `json:"ts,omitempty"`
-	Obs     any      `json:"obs"`
+	Fam     string  `json:"fam"` // res | inv
+	ID      int     `json:"id"`
+	Class   string  `json:"class"` // ing | merge | vs | ts | inv
+	Env     Env     `json:"env"`
+	Cluster Cluster `json:"cluster"`
+	Ing     *Ing    `json:"ing,omitempty"`
+	Minions []Ing   `json:"minions,omitempty"`
+	Rival   *Ing    `json:"rival,omitempty"` // an older Ingress owning one of the hosts
+	VS      *VS     `json:"vs,omitempty"`
+	TS      *TS     `json:"ts,omitempty"`
+	Obs     any     `json:"obs"`
 }
 
 // ---------------------------------------------------------------- observables
@@ -194,20 +194,20 @@ type Rev struct {
 	Ns     string   `json:"ns"`
 	Name   string   `json:"name"`
 	Exists bool     `json:"exists"`
-	Direct bool     `json:"direct"`         // the resource is among FindResourcesFor<kind>(ns, name)
-	Via    []string `json:"via"`            // policies the second hop finds for the object
-	Req    bool     `json:"req"`            // endpoints: the *RequiresEndpointsUpdate filter lets the resource through
-	EpFind bool     `json:"epfind"`         // endpoints: FindResourcesForEndpoints (unused by the controller; informational)
-	Dep    bool     `json:"dep"`            // the extended resource changes when this object is changed / deleted / created
-	How    string   `json:"how,omitempty"`  // which mutation showed the dependency
+	Direct bool     `json:"direct"`        // the resource is among FindResourcesFor<kind>(ns, name)
+	Via    []string `json:"via"`           // policies the second hop finds for the object
+	Req    bool     `json:"req"`           // endpoints: the *RequiresEndpointsUpdate filter lets the resource through
+	EpFind bool     `json:"epfind"`        // endpoints: FindResourcesForEndpoints (unused by the controller; informational)
+	Dep    bool     `json:"dep"`           // the extended resource changes when this object is changed / deleted / created
+	How    string   `json:"how,omitempty"` // which mutation showed the dependency
 }
 
 type PolObs struct {
-	Key     string `json:"key"`
-	Valid   bool   `json:"valid"`
-	ClassOK bool   `json:"class_ok"`
-	Found   bool   `json:"found"` // the resource is among FindResourcesForPolicy(key)
-	Skel    map[string]any `json:"skel"` // the reference-bearing fields read off the real object
+	Key     string         `json:"key"`
+	Valid   bool           `json:"valid"`
+	ClassOK bool           `json:"class_ok"`
+	Found   bool           `json:"found"` // the resource is among FindResourcesForPolicy(key)
+	Skel    map[string]any `json:"skel"`  // the reference-bearing fields read off the real object
 }
 
 // EvObs: one notification delivered through the real informer handler and the real lbc.sync
@@ -615,7 +615,7 @@ func genCluster(r *vh.Rng, e Env) Cluster {
 		for _, n := range svcNames {
 			if r.Chance(4, 5) {
 				ext := e.Plus && r.Chance(1, 4)
-				c.Services = append(c.Services, SvcSpec{Key: ns + "/" + n, External: ext, Slice: !ext})
+				c.Services = append(c.Services, SvcSpec{Key: ns + "/" + n, External: ext, Slice: !ext && r.Chance(9, 10)})
 			}
 		}
 		for _, n := range secNames {
@@ -870,6 +870,9 @@ func genMergeable(r *vh.Rng, e Env) (*Ing, []Ing) {
 		mi.Ann[annMerge] = "minion"
 		if r.Chance(1, 5) {
 			mi.Default = pick(r, svcNames)
+		}
+		if r.Chance(1, 10) {
+			mi.TLS = []string{pick(r, secNames)} // validateMinionSpec rejects this minion
 		}
 		rule := IngRule{Host: "m.example.com"}
 		np := 1 + r.Intn(2)
@@ -1482,7 +1485,10 @@ func (m *recMgr) CreateConfig(name string, content []byte) bool {
 	m.files["config:"+name] = string(content)
 	return true
 }
-func (m *recMgr) DeleteConfig(name string) { m.writes = append(m.writes, "delete:"+name); delete(m.files, "config:"+name) }
+func (m *recMgr) DeleteConfig(name string) {
+	m.writes = append(m.writes, "delete:"+name)
+	delete(m.files, "config:"+name)
+}
 func (m *recMgr) CreateStreamConfig(name string, content []byte) bool {
 	m.writes = append(m.writes, "stream:"+name)
 	m.files["stream:"+name] = string(content)
@@ -1832,6 +1838,15 @@ func tweakPolicy(p *conf_v1.Policy, g int) {
 // snapshot copies the files with their lines sorted: the order of some generated blocks (e.g. the maps of
 // several APIKey policies) follows Go map iteration and differs between two generations of the same input
 // (that is C09's subject, not C15's); a stale server, secret path or policy changes the multiset of lines.
+func findSvc(c *Case, key string) (SvcSpec, bool) {
+	for _, s := range c.Cluster.Services {
+		if s.Key == key {
+			return s, true
+		}
+	}
+	return SvcSpec{}, false
+}
+
 func snapshot(m map[string]string) map[string]string {
 	out := make(map[string]string, len(m))
 	for k, v := range m {
@@ -1940,6 +1955,8 @@ func runEvents(c *Case, resKey string, revs []Rev) []EvObs {
 			}
 		} else if r.Kind != "endpoints" {
 			ops = []string{"add"}
+		} else if sp, ok := findSvc(c, key); ok && !sp.External {
+			ops = []string{"add"} // a Service with pods whose first EndpointSlice arrives
 		}
 		if (r.Kind == "appolicy" || r.Kind == "aplogconf") && !c.Env.AP {
 			continue // no informer for these kinds without -enable-app-protect
